@@ -176,6 +176,15 @@ func shouldProxy(method, urlPath string) (ok bool) {
 		return false
 	}
 
+	for _, part := range parts {
+		// Never proxy paths with dot segments, since the backend or anything
+		// in front of it may normalize them, and the normalized path may leave
+		// the API prefixes.
+		if part == "." || part == ".." {
+			return false
+		}
+	}
+
 	switch method {
 	case http.MethodGet:
 		return shouldProxyGet(parts)
